@@ -132,6 +132,7 @@ pub fn profile_for(prop: &str) -> Profile {
         },
         "C10" => Profile {
             w_advance: 20,
+            w_resize: 8,
             p_gate: 50,
             ..Profile::base("C10", "timeouts")
         },
@@ -206,12 +207,14 @@ fn gen_cfg(p: &Profile, rng: &mut Rng) -> PoolCfg {
 fn gen_kind(p: &Profile, cfg: &PoolCfg, rng: &mut Rng) -> TaskKind {
     let dur = |rng: &mut Rng| Duration::from_millis(rng.range(1, 50) * 10);
     let per_call = if p.per_call && rng.chance(1, 2) {
+        // now and then a timeout is used although the pool has no runtime (=> NoRuntimeSpecified)
+        let rt_ok = cfg.runtime || rng.chance(1, 8);
         let wait = match rng.below(6) {
             0 | 1 => Some(Duration::ZERO),
-            2 if cfg.runtime => Some(dur(rng)),
+            2 if rt_ok => Some(dur(rng)),
             _ => None,
         };
-        let (create, recycle) = if cfg.runtime && rng.chance(1, 3) {
+        let (create, recycle) = if rt_ok && rng.chance(1, 3) {
             (
                 if rng.chance(1, 2) { Some(dur(rng)) } else { None },
                 if rng.chance(1, 2) { Some(dur(rng)) } else { None },
